@@ -17,6 +17,9 @@ import (
 )
 
 type argOutcome struct {
+	Events   []string
+	Vals     map[string]Value
+	Ret      []Value
 	Word     string
 	Sets     map[string]string // parsedArgs field -> value stored
 	RestWord bool              // the word itself is appended to the file words
@@ -49,6 +52,9 @@ func (o argOutcome) String() string {
 }
 
 type cliPay struct {
+	vals     map[string]Value // values stored into parsedArgs fields
+	events   []string         // calls of interest, in order
+	restObj  string           // what the file words are appended to (variable or field)
 	sets     map[string]string
 	restWord bool
 	restTail bool
@@ -60,7 +66,11 @@ type cliPay struct {
 }
 
 func (p *cliPay) Clone() Payload {
-	q := &cliPay{sets: map[string]string{}, restWord: p.restWord, restTail: p.restTail, inLoop: p.inLoop, done: p.done, fields: map[string]Value{}}
+	q := &cliPay{sets: map[string]string{}, restWord: p.restWord, restTail: p.restTail, inLoop: p.inLoop, done: p.done, fields: map[string]Value{}, vals: map[string]Value{}, restObj: p.restObj}
+	for k, v := range p.vals {
+		q.vals[k] = v
+	}
+	q.events = append([]string(nil), p.events...)
 	for k, v := range p.sets {
 		q.sets[k] = v
 	}
@@ -72,8 +82,29 @@ func (p *cliPay) Clone() Payload {
 	return q
 }
 
+// cliOpts selects what the command-line interpreter does.
+type cliOpts struct {
+	word   string           // the argument word of the one loop iteration interpreted (mode "word")
+	tail   bool             // skip the argument loop; the file words are `rest`; continue to the end of the function
+	rest   []string         // file words (mode tail)
+	args   []Value          // argument values of the interpreted function (nil: symbolic)
+	fields map[string]Value // values of parsedArgs fields read before they are stored (nil: symbolic)
+	zero   bool             // fields not listed are the zero value instead of symbolic
+	calls  map[string]Value // results of opaque calls by callee name (cmd.parseArgs, cmd.run, Execute, …)
+}
+
 // argsOutcomes interprets one iteration of parseArgs' argument loop for the word.
 func (c *Ctx) argsOutcomes(fd *ast.FuncDecl, word string) (outs []argOutcome, undecided []string) {
+	return c.cliInterp(fd, cliOpts{word: word})
+}
+
+// argsTail interprets what parseArgs does after its argument loop, for the given file words and flag fields.
+func (c *Ctx) argsTail(fd *ast.FuncDecl, rest []string, fields map[string]Value) (outs []argOutcome, undecided []string) {
+	return c.cliInterp(fd, cliOpts{tail: true, rest: rest, fields: fields, zero: true})
+}
+
+func (c *Ctx) cliInterp(fd *ast.FuncDecl, opts cliOpts) (outs []argOutcome, undecided []string) {
+	word := opts.word
 	isTag := func(v Value, t string) bool { return v.K == vTag && v.Tag == t }
 	strOf := func(v Value) (string, bool) {
 		if v.K == vConst && v.C.Kind() == constant.String {
@@ -88,7 +119,7 @@ func (c *Ctx) argsOutcomes(fd *ast.FuncDecl, word string) (outs []argOutcome, un
 	var collected []argOutcome
 	record := func(st *State, result string) {
 		p := st.P.(*cliPay)
-		o := argOutcome{Word: word, Sets: p.sets, RestWord: p.restWord, RestTail: p.restTail, Result: result, Spliced: p.spliced, Problems: p.problems}
+		o := argOutcome{Word: word, Sets: p.sets, RestWord: p.restWord, RestTail: p.restTail, Result: result, Spliced: p.spliced, Problems: p.problems, Events: p.events, Vals: p.vals, Ret: st.Ret}
 		collected = append(collected, o)
 	}
 	retKind := func(st *State) string {
@@ -140,7 +171,26 @@ func (c *Ctx) argsOutcomes(fd *ast.FuncDecl, word string) (outs []argOutcome, un
 		switch e := e.(type) {
 		case *ast.SelectorExpr:
 			if f, ok := fieldName(e); ok {
+				if v, ok := p.vals[f]; ok && (opts.tail || opts.fields != nil) {
+					return v, true
+				}
+				if v, ok := opts.fields[f]; ok {
+					return v, true
+				}
+				if opts.zero {
+					if o, isVar := c.objOf(e).(*types.Var); isVar {
+						switch u := o.Type().Underlying().(type) {
+						case *types.Basic:
+							return in.zeroOf(u), true
+						default:
+							return tagV("nil", nil), true
+						}
+					}
+				}
 				return tagV("field", f), true
+			}
+			if o, ok := c.objOf(e).(*types.Var); ok && o.Pkg() != nil && o.Pkg().Path() == "os" {
+				return tagV("os", o.Name()), true
 			}
 			if o, ok := c.objOf(e).(*types.Var); ok && o.IsField() {
 				if v, ok := p.fields[c.fieldPath(e)]; ok {
@@ -187,8 +237,9 @@ func (c *Ctx) argsOutcomes(fd *ast.FuncDecl, word string) (outs []argOutcome, un
 		switch l := lhs.(type) {
 		case *ast.SelectorExpr:
 			if f, ok := fieldName(l); ok {
-				if p.inLoop {
+				if p.inLoop || opts.tail {
 					p.sets[f] = desc(v)
+					p.vals[f] = v
 				}
 				return true
 			}
@@ -280,7 +331,7 @@ func (c *Ctx) argsOutcomes(fd *ast.FuncDecl, word string) (outs []argOutcome, un
 			switch {
 			case nilLike(l) && nilLike(r):
 				return eq(true)
-			case nilLike(l) && (isTag(r, "field") || r.K == vFunc || isTag(r, "errv")), nilLike(r) && (isTag(l, "field") || l.K == vFunc || isTag(l, "errv")):
+			case nilLike(l) && (isTag(r, "field") || r.K == vFunc || isTag(r, "errv") || isTag(r, "helpfn")), nilLike(r) && (isTag(l, "field") || l.K == vFunc || isTag(l, "errv") || isTag(l, "helpfn")):
 				return eq(false)
 			}
 		}
@@ -450,13 +501,69 @@ func (c *Ctx) argsOutcomes(fd *ast.FuncDecl, word string) (outs []argOutcome, un
 					p.restTail = p.restTail || hasTail
 				}
 				return one(st, unknownV()), true
+			case opts.tail && base.K == vList:
+				nl := Value{K: vList, Tup: append(append([]Value(nil), base.Tup...), more...)}
+				return one(st, nl), true
 			}
 			return one(st, unknownV()), true
+		}
+		if sel, ok := stripParens(call.Fun).(*ast.SelectorExpr); ok {
+			if f, isField := fieldName(sel); isField {
+				p.events = append(p.events, "call:field:"+f)
+				return one(st, unknownV()), true
+			}
+		}
+		if v, ok := opts.calls[name]; ok {
+			p.events = append(p.events, "call:"+name)
+			return one(st, v), true
+		}
+		switch name {
+		case "os.Exit":
+			code := "?"
+			if a := arg(0); a.K == vConst {
+				code = a.C.ExactString()
+			}
+			p.events = append(p.events, "exit("+code+")")
+			collected = append(collected, argOutcome{Word: word, Sets: p.sets, Result: "exit(" + code + ")", Problems: p.problems, Events: p.events, Vals: p.vals})
+			return []valState{}, true // the process ends here
+		case "fmt.Fprintln", "fmt.Fprintf", "fmt.Fprint":
+			if a := arg(0); isTag(a, "os") {
+				what := ""
+				for _, x := range args[1:] {
+					if x.K == vList {
+						for _, y := range x.Tup {
+							what += " " + y.String()
+						}
+					} else {
+						what += " " + x.String()
+					}
+				}
+				p.events = append(p.events, "print:"+a.Data.(string)+what)
+			}
+			return one(st, unknownV()), true
+		case "fmt.Printf", "fmt.Println", "fmt.Print":
+			what := ""
+			for _, x := range args {
+				if x.K == vList {
+					for _, y := range x.Tup {
+						what += " " + y.String()
+					}
+				} else if x.K != vConst {
+					what += " " + x.String()
+				}
+			}
+			p.events = append(p.events, "print:Stdout"+what)
+			return one(st, unknownV()), true
+		case "os.Open":
+			p.events = append(p.events, "os.Open("+arg(0).String()+")")
+			return one(st, Value{K: vTuple, Tup: []Value{tagV("file", arg(0).String()), tagV("nil", nil)}}), true
 		}
 		if fn, ok := callee.(*types.Func); ok && (fn.Pkg() == nil || fn.Pkg().Path() != cmdPath) {
 			sig := fn.Type().(*types.Signature)
 			if res := sig.Results(); res.Len() == 1 && isErrorType(res.At(0).Type()) {
-				return one(st, tagV("errv", "err")), true
+				if strings.HasPrefix(name, "fmt.") || strings.HasPrefix(name, "errors.") {
+					return one(st, tagV("errv", "err")), true
+				}
 			}
 		}
 		return nil, false
@@ -469,6 +576,29 @@ func (c *Ctx) argsOutcomes(fd *ast.FuncDecl, word string) (outs []argOutcome, un
 		}
 		// the argument loop: the first loop parseArgs (or what it is split into) enters
 		first = false
+		if opts.tail {
+			// zero iterations; the file words are the given ones
+			p.done = true
+			list := Value{K: vList}
+			for _, w := range opts.rest {
+				list.Tup = append(list.Tup, constV(constant.MakeString(w)))
+			}
+			if fs, ok := loop.(*ast.ForStmt); ok && fs.Init != nil {
+				in.exec(st, fs.Init)
+			}
+			for obj, v := range st.Env {
+				if vr, isVar := obj.(*types.Var); isVar && isStringSlice(vr.Type()) && !(v.K == vTag && v.Tag == "args") {
+					st.Env[obj] = list // the file words collected by the loop
+				}
+			}
+			for k := range p.fields {
+				if strings.HasSuffix(k, ".rest") {
+					p.fields[k] = list
+				}
+			}
+			first = true
+			return []*State{st}, true
+		}
 		var init, post ast.Stmt
 		if fs, ok := loop.(*ast.ForStmt); ok {
 			init, post = fs.Init, fs.Post
@@ -510,12 +640,50 @@ func (c *Ctx) argsOutcomes(fd *ast.FuncDecl, word string) (outs []argOutcome, un
 		return nil, true // what follows the loop is not part of the outcome
 	}
 	in := newInterp(c, h)
-	st := &State{Env: map[types.Object]Value{}, P: &cliPay{sets: map[string]string{}, fields: map[string]Value{}}}
-	in.inlineBody(st, fd.Type, fd.Body, fd.Recv, []Value{tagV("args", "all")})
+	st := &State{Env: map[types.Object]Value{}, P: &cliPay{sets: map[string]string{}, fields: map[string]Value{}, vals: map[string]Value{}}}
+	var fargs []Value
+	if fd.Type.Params != nil {
+		for _, f := range fd.Type.Params.List {
+			for range f.Names {
+				if len(fargs) == 0 && !opts.tail && opts.calls == nil && opts.fields == nil {
+					fargs = append(fargs, tagV("args", "all"))
+				} else if len(fargs) == 0 && opts.tail {
+					fargs = append(fargs, tagV("args", "all"))
+				} else if len(fargs) < len(opts.args) {
+					fargs = append(fargs, opts.args[len(fargs)])
+				} else {
+					fargs = append(fargs, unknownV())
+				}
+			}
+		}
+	}
+	res := in.inlineBody(st, fd.Type, fd.Body, fd.Recv, fargs)
+	if opts.tail || opts.calls != nil || opts.fields != nil {
+		for _, vs := range res {
+			p := vs.st.P.(*cliPay)
+			rv := vs.v
+			var ret []Value
+			if rv.K == vTuple {
+				ret = rv.Tup
+			} else {
+				ret = []Value{rv}
+			}
+			result := "?"
+			if n := len(ret); n > 0 {
+				switch {
+				case isTag(ret[n-1], "errv"):
+					result = "error"
+				case isTag(ret[n-1], "nil"):
+					result = "ok"
+				}
+			}
+			collected = append(collected, argOutcome{Word: word, Sets: p.sets, Result: result, Problems: p.problems, Events: p.events, Vals: p.vals, Ret: ret})
+		}
+	}
 	// merge outcomes that agree
 	seen := map[string]bool{}
 	for _, o := range collected {
-		k := o.String()
+		k := o.String() + strings.Join(o.Events, ",")
 		if !seen[k] {
 			seen[k] = true
 			outs = append(outs, o)
